@@ -64,6 +64,7 @@ def run_family(ctx, scens, budget_per, name, sig=None):
         outcomes[w.outcome] = outcomes.get(w.outcome, 0) + 1
     ctx.extra.setdefault("executions", {})[name] = {"count": len(worlds), "visible_ops": steps, "outcomes": outcomes}
     bad = poolsim.judge_worlds(worlds, ws, ctx, name, sig)
+    poolsim.real_leg(ctx, scens[0]["judge"], name, ctx.tier == "quick", rnd)
     if worlds:
         w = worlds[len(worlds) // 2]
         ctx.sample({"scenario": ws[len(worlds) // 2], "schedule": w.schedule[:40], "events": [e["op"] for e in w.events][:30]})
